@@ -656,6 +656,10 @@ func (r *room) doChat(sc *simClient) {
 	r.chatN++
 	val := fmt.Sprintf("m%d", r.chatN)
 	m := clientMessage{Type: typ, Kind: kind, Dest: dest, Value: val, NoEcho: rapid.Bool().Draw(t, "noecho")}
+	// a sender may claim anything about its own message
+	if rapid.IntRange(0, 3).Draw(t, "claimsPrivileged") == 0 {
+		m.Privileged = true
+	}
 	spoof := ""
 	srcClass := rapid.IntRange(2, 11).Draw(t, "srcClass")
 	if oneIn(t, 25, "spoof?") {
